@@ -73,6 +73,48 @@ close(R['bkg'][0, 2], np.mean([6, 13]), 'extra column box')
 if R['incl'][2, 2] or not np.isnan(R['bkg'][2, 2]):
     fails.append('empty corner box must be excluded')
 
+# well-posedness margins: the clip margin is the distance of the nearest pixel to a clipping bound, i.e. moving a
+# bound by less than the margin never changes what is kept; moving the nearest pixel across it does
+for n in (2, 5, 9, 20):
+    for rep in range(6):
+        v = rng.normal(10, 2, n)
+        if rep % 2:
+            v[0] = 100.0
+        for sigma, it in ((3.0, 10), (2.0, 3)):
+            info = {}
+            kept = ref.sigma_clip(v, sigma, it, info)
+            mg = info['margin']
+            if not (mg > 0 and np.isfinite(mg)):
+                fails.append(f'clip margin {mg!r} for n={n}')
+                continue
+            # recompute all bounds by hand and compare
+            w, k, best = v.copy(), 0, np.inf
+            while w.size and k < it:
+                k += 1
+                c, s_ = np.median(w), np.std(w)
+                best = min(best, np.min(np.abs(w - (c - sigma * s_))), np.min(np.abs(w - (c + sigma * s_))))
+                keep = (w >= c - sigma * s_) & (w <= c + sigma * s_)
+                if keep.all():
+                    break
+                w = w[keep]
+            close(mg, float(best), f'clip margin n={n}', tol=1e-9)
+            if w.size != kept.size:
+                fails.append('clip margin bookkeeping changed the clipping')
+info = {}
+ref.sigma_clip(np.array([3.25]), 3.0, 10, info)
+if 'margin' in info:
+    fails.append('a single value must not contribute a clip margin (its decision is exact)')
+v = np.array([1.0, 2.0, 3.0, 10.0])       # median 2.5, mean 4, std 3.5355: |mean-median| = 1.5 vs 0.3 std = 1.0607
+close(ref.sextractor_branch_margin(v), abs(1.5 - 0.3 * float(np.std(v))), 'branch margin')
+if ref.sextractor_branch_margin([4.0]) != np.inf:
+    fails.append('branch margin of one value')
+R = ref.reference_mesh(d, g, (2, 3), 'pad', 100, (3.0, 10), 'SExtractor', 'Std')
+if not (0 < R['clip_margin'] < np.inf and 0 <= R['branch_margin'] < np.inf):
+    fails.append(f'reference_mesh margins {R["clip_margin"]!r} {R["branch_margin"]!r}')
+R = ref.reference_mesh(d, g, (2, 3), 'pad', 100, None, 'Mean', 'Std')
+if R['clip_margin'] != np.inf or R['branch_margin'] != np.inf:
+    fails.append('margins must be inf without clipping / without a branching estimator')
+
 # median filter against scipy's generic_filter with NaN padding (ignoring NaN)
 for shape in [(1, 1), (2, 2), (3, 4), (4, 3), (1, 5)]:
     m = rng.normal(0, 1, shape)
